@@ -116,8 +116,10 @@ def get_html_md_word_splitter() -> WordSplitter:
 # Matches list markers (*, +, -) bare or before a space (but not before a letter for
 # example), headings (#, ##, etc.), runs of the thematic break and setext underline
 # characters (---, ***, ___, ===, also spaced out like "_ _ _"), anything starting with
-# a blockquote marker (>, >x) and code fence openers (```, ~~~).
-_md_specials_pat = re.compile(r"^([-*+_=]+|>.*|#+|`{3,}.*|~{3,}.*)$", re.DOTALL)
+# a blockquote marker (>, >x) and code fence openers (```, ~~~). A backtick fence cannot
+# have a backtick in its info string, so a word with further backticks (a whole code span
+# delimited by three or more backticks) is not an opener and must not be escaped.
+_md_specials_pat = re.compile(r"^([-*+_=]+|>.*|#+|`{3,}[^`]*|~{3,}.*)$", re.DOTALL)
 
 # Separate pattern to specifically find the numbered list cases for targeted escaping
 _md_numeral_pat = re.compile(r"^[0-9]+[.)]$")
